@@ -193,6 +193,15 @@ pub fn judge_program(ctx: &mut WorkerCtx, p: &Plan, prop: &'static str, backend:
                         continue;
                     }
                 };
+                if backend == Backend::BaseJit {
+                    if let Some(bc) = comp.bytecode(false) {
+                        for inst in &bc.insts {
+                            if let Some(f) = crate::forms::jit_form(inst, w) {
+                                ctx.count(&format!("form:{f}"), 1);
+                            }
+                        }
+                    }
+                }
                 for (script, canon) in &halting {
                     ctx.count("executions", 1);
                     ctx.count("actions_compared", canon.trace.len() as u64);
